@@ -63,7 +63,7 @@ CHECKS.update({
    design_ref="DESIGN.md section 2, C06", note="Windows-only conventions have clang as the single oracle; x86-32 and AArch64 entry sequences are executed symbolically only.",
    technique="compiler-probe differential monitor + native interop execution + symbolic execution of entry sequences, sanitizer build"),
  "C07": dict(category="exploration",
-   text="Runtime monitoring: 2.8e5 (quick) / 4e6 (thorough) random and boundary FuncFrames; prolog + generated monitor body + epilog are executed natively on x86-64 (register/canary trampoline), on x86-32 through a compatibility-mode far-call gate, and AArch64 prolog/epilog are interpreted symbolically from llvm-mc's disassembly; preserved registers (ABI documents, not asmjit tables), SP, alignment, canaries, stack-argument reads and pairwise disjointness of the reported areas are checked.",
+   text="Runtime monitoring: 2.8e5 (quick) / 4e6 (thorough) random and boundary FuncFrames; prolog + generated monitor body + epilog are executed natively on x86-64 (register/canary trampoline), on x86-32 through a compatibility-mode far-call gate, and AArch64 prolog/epilog are interpreted symbolically from llvm-mc's disassembly; preserved registers (ABI documents, not asmjit tables), SP, alignment, canaries, stack-argument reads and pairwise disjointness of the reported areas are checked; frames the Compiler derives for functions with 2-6 call sites of different stack-argument sizes (x86-64, x86-32, AArch64) are read back after finalize(): the call area must cover the largest invoke and stay disjoint from the local area.",
    design_ref="DESIGN.md section 2, C07", note="AArch64 is not executed (symbolic SP/slot tracking); light-call/custom conventions are judged against their own preserved masks; low 128 bits of vector registers compared.",
    technique="native execution monitor (register image + canaries) + symbolic prolog/epilog interpreter"),
  "C10": dict(category="exploration",
